@@ -73,7 +73,7 @@ HVar(k, tag, vs) == HV(k, "", tag, vs)          \* k \in opt res enum
 \* each other (a swapped or reversed marshalling is visible), every variant of an enum-like type and the
 \* empty / one-element / two-element array occur
 ScalarAt(k, j) ==
-  CASE k = "int" -> <<"0", "-9223372036854775807", "9223372036854775807">>[j + 1]
+  CASE k = "int" -> <<"0", "-9223372036854775808", "9223372036854775807">>[j + 1]
     [] k = "float" -> <<"0.5", "2.0", "-1.25">>[j + 1]
     [] k = "bool" -> <<"true", "false", "true">>[j + 1]
     [] k = "str" -> <<"", "a b", "say \"hi\"">>[j + 1]
@@ -264,6 +264,17 @@ RoundTripLaw(m, t, v) ==
 \* one value on top of the base, base untouched
 BalanceLaw(m, t, v) ==
   LET S == ToVm(m, t, v, Base) IN S.ok /\ Len(S.st) = 2 /\ S.st[1] = Sentinel
+\* the four laws at once (shared sub-results: TLC does not memoise operator applications)
+LawsAt(m, t, v) ==
+  LET L == Lay(t, v)
+      onstack == [st |-> <<Sentinel, L>>, ok |-> TRUE]
+      E == ToVm(m, t, v, Base)
+      D == FromVm(m, t, E)
+      D2 == IF E = onstack THEN D ELSE FromVm(m, t, onstack)
+  IN [decode |-> D2.S.ok /\ D2.v = v /\ D2.S = Base,
+      encode |-> E = onstack,
+      roundtrip |-> D.S.ok /\ D.v = v /\ D.S = Base,
+      balance |-> E.ok /\ Len(E.st) = 2 /\ E.st[1] = Sentinel]
 CallLaw(m, ts, vs) ==
   LET r == ArgsFromVm(m, ts, [st |-> ArgsStack(<<Sentinel>>, ts, vs), ok |-> TRUE])
   IN r.S.ok /\ r.vs = vs /\ r.S = Base
